@@ -45,11 +45,15 @@
       (signature, verdict, panic flag) is the one obtained with ANY longer array extending the stored one;
       `trunc_only_when_too_small`, `verdict_cases`, `fits_ok`.
 
+  (6) composition with C01 and C13, carried out in Lean (`Sipsp.Proofs.SigCompose`): `sig_chunking` (every chunk
+      schedule from Init that ends with OK gives the object — hence signature, verdict and panic flag — of the fresh
+      one-shot call), `sig_chunking_whole` (a complete message cut anywhere = one call on the whole buffer, given that
+      the earlier prefixes are incomplete: without Content-Length the body runs to the end of the completing call's
+      buffer), `sig_two_schedules`; `sig_capacity_fit` (two header-array capacities that both hold all headers: the
+      identical result), `sig_capacity_small` (an array too small against a larger one: Trunc, or exactly the same
+      result — both occur), `sig_capacity` (both, for two runs from Init with any capacities over any chunk schedule).
+
   NOT proved here:
-  * that two parses of the same text with different chunk schedules / header capacities give message objects with the
-    same method, Call-ID / From-tag bytes and `firsts` (chunk independence is C01/C02, capacity independence C13; with
-    those, `same_view_same_signature` / `edit_padding` / `truncated_or_same` give the signature-level statement, but
-    that composition is not carried out in Lean);
   * that `Covered` holds for parser output when a values object is supplied and fingerprinted headers are present:
     `covered_bookkeeping` proves it for the list bookkeeping of ParseHeaders itself (any accepted headers, any array
     size) and `covered_header_block` for ParseHeaders on every block of the C07 grammar under the generic treatment
@@ -64,6 +68,7 @@
   Model tied to msg_sig.go by the correspondence check.
 -/
 import Sipsp.Proofs.SigSpec
+import Sipsp.Proofs.SigCompose
 
 namespace Sipsp.C19
 open Sipsp
@@ -618,5 +623,38 @@ def exUncovered : PSIPMsg :=
 
 example : (getMsgSig exUncovered #[]).1.hdrSig = [3] ∧
     (sigOfView 0 #[] #[] (firsts exUncovered #[])).hdrSig = [3, 5] := by decide +kernel
+
+/-! ### composition with chunking (C01) and capacities (C13) (proved in `Sipsp.Proofs.SigCompose`) -/
+
+/-- **every chunk schedule from Init that ends with OK** gives the object — hence the signature, verdict and panic
+    flag of GetMsgSig on any buffer — that the fresh one-shot calls on the same prefixes give -/
+theorem sig_chunking : type_of% @Sipsp.sc_sig_chunking := @Sipsp.sc_sig_chunking
+
+/-- **a complete message handed over in ANY number of pieces** (each earlier piece boundary leaves an incomplete
+    message: the one-shot verdict on that prefix is MoreBytes; the whole buffer `B` = last element parses OK): the
+    chain of resumed calls returns exactly what ONE call on `B` returns — offset, verdict, object — and so
+    GetMsgSig gives the same signature, verdict and panic flag -/
+theorem sig_chunking_whole : type_of% @Sipsp.sc_sig_chunking_whole := @Sipsp.sc_sig_chunking_whole
+
+/-- … hence two different ways of cutting the same complete message give the same signature (and the same object) -/
+theorem sig_two_schedules : type_of% @Sipsp.sc_sig_two_schedules := @Sipsp.sc_sig_two_schedules
+
+/-- **(3a) two header arrays that both hold all headers of the message**: the same signature, verdict (OK) and panic
+    flag. `MsgDone` is the relation the capacity theorems (C13) establish between the results of two runs with
+    different capacities; `ScDone` holds after every successful parse (`sc_parseSIPMsg`, `sc_resumeRun`). -/
+theorem sig_capacity_fit : type_of% @Sipsp.sc_sig_fit := @Sipsp.sc_sig_fit
+
+/-- **(3b) a header array too small for the message** compared with any array at least as large (too small as well, or
+    large enough): GetMsgSig gives the explicit truncated indication, or else exactly the same result — signature,
+    verdict, panic flag — as with the larger array -/
+theorem sig_capacity_small : type_of% @Sipsp.sc_sig_small := @Sipsp.sc_sig_small
+
+/-- **(3) capacities, any chunk schedule, from Init**: two runs over the same chunk schedule on objects initialised
+    with ANY two header / contact capacities (or none = the private arrays of 10), the first one ending with OK:
+    the second one ends with OK at the same offset with the same header count `n`; the arrays keep their capacities;
+    * if both capacities hold all `n` headers, GetMsgSig gives the same result (signature, verdict OK, panic flag);
+    * if the first capacity is too small and the second is not smaller, GetMsgSig on the first object gives the
+      truncated indication, or else exactly the result on the second object. -/
+theorem sig_capacity : type_of% @Sipsp.sc_sig_capacity := @Sipsp.sc_sig_capacity
 
 end Sipsp.C19
